@@ -470,9 +470,10 @@ def _cond(run, P):
            construct="else arm is empty",
            why="nothing runs when the guard is false")
     test = [n for n in f.node.body if isinstance(n, ast.If)]
+    from .util import else_part
     ok = bool(test) and norm(test[0].test) == "statement.condition is not True" \
-        and test[0].orelse and any("statement_to_ast(statement)" in ast.unparse(s_)
-                                   and isinstance(s_, ast.Return) for s_ in test[0].orelse)
+        and any("statement_to_ast(statement)" in ast.unparse(s_)
+                and isinstance(s_, ast.Return) for s_ in else_part(f.node, test[0]))
     run.ob("C05.cond", f, test[0] if test else f.node, ok,
            construct="unguarded statements are wrapped directly",
            why="condition True means unconditional")
